@@ -95,7 +95,7 @@ AvlExplains(s, c, r) ==
            /\ BagEq(r.res, Overlaps(s.bag, c.a.qs, c.a.qe))
            /\ r.cnt = Len(r.res)
       [] c.op = "copy" ->                                \* clone / serde round trip / clone_from: same tree
-           /\ r.st = "ok"
+           /\ r.st = "ok" /\ r.eq = 1                    \* (a clone compares equal to its original)
            /\ LET ps == ParseShape(r.shape) IN
               /\ ps[3] /\ ps[2] = << >> /\ TrueBalanced(ps[1]) /\ AvlPruneSafe(ps[1])
               /\ BagEq([i \in 1..Len(r.shape) |-> <<r.shape[i][1], r.shape[i][2], r.shape[i][3]>>], s.bag)
@@ -131,7 +131,7 @@ IIExplains(s, c, r) ==
                                                          d |-> r.entries[i][3], mx |-> r.entries[i][4]]],
                           r.ml, RealLL)                                   \* sorted; no query can miss an entry
            /\ (Len(r.entries) > 0 => (Pow2i(r.ml) <= Len(r.entries) /\ Pow2i(r.ml + 1) > Len(r.entries)))
-      [] c.op = "copy" -> r.st = "ok"                    \* clone / serde / clone_from: same tree, same indexed flag
+      [] c.op = "copy" -> r.st = "ok" /\ r.eq = 1        \* clone / serde / clone_from: same tree, same indexed flag
       [] c.op = "finds" ->
            IF ~s.indexed THEN r.st = "panic"             \* querying an un-indexed tree is refused
            ELSE /\ r.st = "ok" /\ Len(r.res) = Len(c.a.qs)
